@@ -210,34 +210,38 @@ impl PeerState {
     pub fn on_dial_failure(&mut self, connection_id: ConnectionId) -> bool {
         match self {
             // Clear the dial record if the connection ID matches.
-            Self::Dialing { dial_record } =>
+            Self::Dialing { dial_record } => {
                 if dial_record.connection_id == connection_id {
                     *self = Self::Disconnected { dial_record: None };
                     return true;
-                },
+                }
+            }
 
             Self::Connected {
                 record,
                 secondary: Some(SecondaryOrDialing::Dialing(dial_record)),
-            } =>
+            } => {
                 if dial_record.connection_id == connection_id {
                     *self = Self::Connected {
                         record: record.clone(),
                         secondary: None,
                     };
                     return true;
-                },
+                }
+            }
 
             Self::Disconnected {
                 dial_record: Some(dial_record),
-            } =>
+            } => {
                 if dial_record.connection_id == connection_id {
                     *self = Self::Disconnected { dial_record: None };
                     return true;
-                },
+                }
+            }
 
-            Self::Opening { .. } | Self::Connected { .. } | Self::Disconnected { .. } =>
-                return false,
+            Self::Opening { .. } | Self::Connected { .. } | Self::Disconnected { .. } => {
+                return false
+            }
         };
 
         false
@@ -276,7 +280,7 @@ impl PeerState {
             Self::Dialing { dial_record }
             | Self::Disconnected {
                 dial_record: Some(dial_record),
-            } =>
+            } => {
                 if dial_record.connection_id == connection.connection_id {
                     *self = Self::Connected {
                         record: connection.clone(),
@@ -289,7 +293,8 @@ impl PeerState {
                         secondary: Some(SecondaryOrDialing::Dialing(dial_record.clone())),
                     };
                     return true;
-                },
+                }
+            }
 
             Self::Disconnected { dial_record: None } => {
                 *self = Self::Connected {
